@@ -142,7 +142,7 @@ def unary(t, full):
 
 def universe(tier):
     L1 = [prim(p) for p in PRIMS] + [prim(n) for n in NZ] + [UNIT, PH_U8, PH_STR, RFULL, STRING, BOXSTR]
-    derived_leaves = [inst(n) for n in ["P1", "Z0", "Z16", "P64", "NT", "T3", "ZN", "ZA", "ZB", "ZR", "EZ", "EU", "ED", "D1", "D1Z", "DN", "DV", "DT", "DU", "DZ", "RAW", "E1", "E2", "N1"]]
+    derived_leaves = [inst(n) for n in ["P1", "Z0", "Z16", "P64", "NT", "T3", "ZN", "ZA", "ZB", "ZR", "ZT3", "NT16", "EW12", "EZ", "EU", "ED", "D1", "D1Z", "DN", "DV", "DT", "DU", "DZ", "RAW", "E1", "E2", "N1"]]
     L2 = [prim(p) for p in ["u8", "u16", "u32", "u64", "u128", "bool", "char", "f64"]] + [UNIT, prim("NonZeroU16"), STRING, PH_U8]
     L2 += [inst(n) for n in ["P1", "Z0", "Z16", "D1", "E1", "T3"]]
     terms = []
@@ -191,6 +191,7 @@ def universe(tier):
     for a in args:
         gens += [inst("G1", [a]), inst("W", [a]), inst("GT", [a]), inst("GB", [a]), inst("GN", [a])]
         gens += [inst("GP", [a, T("u8", True, True, "u8", 0)]), inst("GD", [a, 2]), inst("GE", [a, vec(prim("u8"))])]
+        gens += [inst("GV", [a]), inst("GPR", [a]), inst("GEC", [a, 4]), inst("GEC", [a, 6]), inst("GCF", [3, a])]
         if a.zc:
             gens += [inst("GZI", [a])]
             # F15 (repaired): with the pinned derive a zero-copy item with a bounded field
